@@ -147,7 +147,11 @@ def _main(a, pid, seed, mod, scratch_root, t0):
         for r in errors:
             print('HARNESS-ERROR in shard', json.dumps(r.get('spec'))[:300])
             print(r['error'])
-        return 2
+        # violations found by the other shards are still reported (exit
+        # 1); without any, the run is inconclusive (exit 2)
+        results = [r for r in results if 'error' not in r]
+        if not results:
+            return 2
     # aggregate
     evaluations = sum(r['evaluations'] for r in results)
     hashes = set()
@@ -255,7 +259,9 @@ def _main(a, pid, seed, mod, scratch_root, t0):
           f'violations={violations} wall={wall:.1f}s')
     for line in out_lines:
         print(line)
-    return 1 if violations else 0
+    if violations:
+        return 1
+    return 2 if errors else 0
 
 
 if __name__ == '__main__':
